@@ -12,10 +12,14 @@ THEOREMS = ['Tbox.C14.' + t for t in [
     'C14_raw_scalar_counterexample', 'C14_raw_unbalanced_counterexample', 'C14_raw_backscan_in_bounds',
     'C14_packet_roundtrip',
     'C14_stream_segmentation', 'C14_header_segmentation', 'C14_raw_segmentation',
+    'C14_message_roundtrip', 'C14_encoder_roundtrip',
     'C14_callback_once', 'C14_callback_code', 'C14_callback_ignored', 'C14_tick_slot',
     'C14_response_id_range', 'C14_response_id_counterexample',
     'C14_ring_expiry', 'C14_callback_timeout', 'C14_callback_exactly_once',
     'C14_pending_timer_on', 'C14_pending_timer_on_counterexample',
+    'C14_server_request_answer', 'C14_server_sends_exactly', 'C14_server_respond_unchecked',
+    'C14_world_client_simulation', 'C14_world_callback_once', 'C14_world_callback_exactly_once',
+    'C14_timer_phase', 'C14_deadline_ms', 'C14_deadline_reached',
 ]]
 SOURCES = ['modules/jsonrpc/proto.cpp', 'modules/jsonrpc/rpc.cpp',
            'modules/jsonrpc/protos/header_stream_proto.cpp', 'modules/jsonrpc/protos/raw_stream_proto.cpp',
@@ -46,7 +50,8 @@ ASSUMPTIONS = ['message text shorter than 2^32 bytes (the encoder truncates the 
 RULE = ('framing cases: messages generated as JSON (nested, quotes/backslashes/brackets in strings, non-ASCII) through the real '
         'encoder, fed back unsegmented, at every 2-way split, byte-wise and at random cuts, concatenated; literal streams with '
         'hand-built headers incl. extreme length fields and wrong magic; hostile bracket/quote-heavy bytes; deep arrays. '
-        'rpc cases: requests/notifications/responses (known, duplicate, late, unknown ids)/clock advances on a real Rpc. '
+        'rpc cases: requests/notifications/responses (known, duplicate, late, unknown, beyond-int ids)/clock advances on a real Rpc; '
+        'world cases: two real Rpc peers (sync/async/unknown services, respond() calls) over a scripted dropping/duplicating/reordering pipe. '
         'non-trivial = the model run resumes a frame across segments, decodes several frames from one segment, meets an extreme '
         'length field / unbalanced text / parse failure, fires a timeout or ignores a late/duplicate/unknown response; distinct = distinct op text')
 
@@ -241,11 +246,43 @@ def gen_rpc(rng):
     return ops
 
 
+def gen_world(rng):
+    """two real Rpc peers over a scripted lossy / reordering / duplicating pipe"""
+    nc, ns = rng.choice([1, 1, 2, 3]), rng.choice([1, 2, 3])
+    ops = ['world %s %d %d' % (rng.choice('HRP'), nc, ns)]
+    svcs = ['s0', 's0', 's5', 'as', 'as', 'no']
+    for _ in range(rng.choice([6, 12, 25, 40])):
+        r = rng.random()
+        if r < 0.22:
+            ops.append('req %d %s' % (1 if rng.random() < 0.15 else 0, rng.choice(svcs)))
+        elif r < 0.26:
+            ops.append('note %s' % rng.choice(svcs))
+        elif r < 0.48:
+            ops.append('dlv cs %d' % rng.choice([0, 0, 0, 1, 2, 5]))
+        elif r < 0.68:
+            ops.append('dlv sc %d' % rng.choice([0, 0, 0, 1, 2, 5]))
+        elif r < 0.72:
+            ops.append('drop %s %d' % (rng.choice(['cs', 'sc']), rng.choice([0, 0, 1])))
+        elif r < 0.80:
+            ops.append('dup %s %d' % (rng.choice(['cs', 'sc']), rng.choice([0, 0, 1])))
+        elif r < 0.90:
+            nreq = sum(1 for o in ops if o.startswith('req '))
+            idv = rng.randrange(1, nreq + 1) if nreq and rng.random() < 0.6 else rng.choice([0, 1, 2, 3, 6, -1])
+            ops.append('srsp %d %d' % (idv, rng.choice([0, 0, 5, -32000])))
+        else:
+            ops.append('adv %d' % rng.choice([0, 500, 999, 1000, 1000, 1500, 2000, 3000]))
+    for _ in range(3):
+        ops += ['dlv cs 0', 'dlv sc 0']
+    ops += ['adv %d' % ((max(nc, ns) + 1) * 1000), 'dlv cs 0', 'dlv sc 0', 'adv 4000']
+    return ops
+
+
 def gen(rng, tier):
     q = tier == 'quick'
     # malformed op stream: both sides answer bad-op
     yield ['frob 1', 'feed 0 00', 'open 9 R', 'open 0 H 70000', 'open 0 R', 'feed 0 0g', 'feedsent 0 0 -', 'rpc R 3', 'sendq 0 1 6d zz', 'deep 0 x']
     yield ['rpc R 0', 'rpc X 2', 'rpc P 2', 'req 2', 'rsp a 0', 'adv -1', 'open 0 R', 'req 0', 'adv 2000']
+    yield ['world R 0 1', 'world R 2 2', 'req 0', 'req 0 zz', 'dlv xx 0', 'srsp 99999999999 0', 'rsp 1 0', 'world R 1 1', 'note s0']
     # directed: the extreme length field (DESIGN §7 row 8) and its neighbours
     yield ['open 0 H 15962', 'feed 0 3e5affffffff7879']
     yield ['open 0 H 15962', 'feed 0 3e5afffffffa7b7d', 'feed 0 7b7d']
@@ -266,6 +303,12 @@ def gen(rng, tier):
     # directed: response ids outside int (must be ignored, not truncated onto a pending request)
     yield ['rpc R 3', 'req 0', 'rsp 4294967297 0', 'rsp 1 0']
     yield ['rpc H 3', 'req 0', 'req 0', 'rsp -4294967294 5', 'rsp 18446744069414584321 0', 'rsp 36893488147419103233 0', 'rsp 2 0', 'rsp 1 0']
+    # directed world: an async service answering twice / late / never; unknown method; notifications; respond() misuse
+    yield ['world R 2 2', 'req 0 as', 'dlv cs 0', 'srsp 1 0', 'srsp 1 5', 'dlv sc 1', 'dlv sc 0', 'adv 2000', 'adv 2000']
+    yield ['world H 1 3', 'req 0 as', 'dlv cs 0', 'adv 1000', 'adv 1000', 'adv 1000', 'srsp 1 0', 'dlv sc 0']
+    yield ['world P 2 2', 'note no', 'dlv cs 0', 'dlv sc 0', 'note s0', 'dlv cs 0', 'note as', 'dlv cs 0', 'req 0 no', 'dlv cs 0',
+           'dlv sc 0', 'srsp 0 0', 'srsp 9 5', 'dlv sc 0', 'req 1 s5', 'dup cs 0', 'dlv cs 0', 'dlv cs 0', 'dlv sc 1', 'dlv sc 0', 'dlv cs 0', 'dlv sc 0']
+    yield ['world R 1 1', 'req 1 as', 'adv 1000', 'dlv cs 1', 'dlv sc 0', 'dlv cs 0', 'adv 1000', 'srsp 1 0', 'dlv sc 0']
     n = 120 if q else 2500
     for i in range(n):
         yield gen_roundtrip(rng, exhaustive=(i % 6 == 0))
@@ -275,10 +318,13 @@ def gen(rng, tier):
         yield gen_hostile(rng)
     for _ in range(n):
         yield gen_rpc(rng)
+    for _ in range(n):
+        yield gen_world(rng)
 
 
 NT = ('resumed-frame', 'multi-frame', 'hdr-need-body-extreme-len', 'raw-unbalanced-err', 'parse-fail', 'timeout-fired',
-      'rsp-late-or-dup', 'rsp-unknown', 'rsp-id-beyond-int', 'deep')
+      'rsp-late-or-dup', 'rsp-unknown', 'rsp-id-beyond-int', 'deep', 'w-dlv-rsp-ignored', 'w-dlv-req-reordered', 'w-srsp-unawaited',
+      'w-timeout-fired', 'w-method-not-found', 'w-respond-timeout')
 
 
 def nontrivial(ops, model_lines):
